@@ -66,6 +66,12 @@ func ScenarioByName(name string) *Scenario {
 		sc = StaticSilent(arg(1), arg(2), arg(3), arg(4))
 	case "late":
 		sc = LateWitness(arg(1))
+	case "rejoin":
+		sc = Rejoin(arg(1), arg(2), arg(3), arg(4))
+	case "refused":
+		sc = Refused(arg(1), arg(2), arg(3))
+	case "partition":
+		sc = Partition(arg(1), arg(2), arg(3), arg(4), arg(5))
 	case "laggards":
 		sc = Laggards(arg(1), arg(2), arg(3), arg(4), arg(5))
 	case "join":
